@@ -13,8 +13,9 @@ at the caret" is not defined by the statement; those combinations get the consis
 Known family (DESIGN.md section 10, D20): abbreviations in which the text in front of a child operator looks like the
 end of an HTML tag (`li[title=x]*3>a`).  They are separated *syntactically* (c11_gen.tag_lookalike, no call into the
 repo) into their own clause and their messages start with `is_html-heuristic:`, so the remaining clauses report
-every other failure.  The same is done for stylesheet functions with several arguments (`lg(t,#f)`: the comma is not
-an abbreviation character for extract), message prefix `comma-in-function:`.
+every other failure.  Two further families are separated the same way: `is_html-unquoted-value:` (a left-context tag that
+ends with an unquoted attribute value, `<a href=x>#id>a`) and `comma-in-function:` (stylesheet functions with several
+arguments, `lg(t,#f)`: the comma is not an abbreviation character for extract).
 """
 import itertools
 import random
@@ -82,8 +83,12 @@ def check_line(line):
 
 
 def _family(syntax, left, abbr):
-    if syntax == 'markup' and c11_gen.tag_lookalike(left, abbr):
-        return 'is_html-heuristic'
+    """syntactic routing / labelling of a round-trip case; `left` is the left context visible to the backward scan"""
+    if syntax == 'markup':
+        if c11_gen.tag_lookalike('', abbr):
+            return 'is_html-heuristic'            # D20: `li[title=x]*3>a`
+        if left and c11_gen.tag_lookalike(left, abbr):
+            return 'is_html-unquoted-value'       # `<a href=x>#id>a`: only together with an unquoted attribute in the left tag
     if syntax == 'stylesheet' and ',' in abbr:
         return 'comma-in-function'
     return 'roundtrip'
@@ -119,12 +124,11 @@ def strings(alpha, maxlen, minlen=0):
             yield (''.join(t),)
 
 
-def _embed(syntax, abbrs, ctxs, want_lookalike):
+def _embed(syntax, abbrs, ctxs, family):
     for a in abbrs:
         for left, prefix, right in ctxs:
-            if (syntax == 'markup' and c11_gen.tag_lookalike('' if prefix else left, a)) != want_lookalike:
-                continue
-            yield (syntax, left, prefix, a, right)
+            if _family(syntax, '' if prefix else left, a) == family:
+                yield (syntax, left, prefix, a, right)
 
 
 def run(tier, seed):
@@ -164,31 +168,39 @@ def run(tier, seed):
 
     c = Clause('roundtrip-markup', 'B', markup_what + '; tag look-alikes routed to their own clause',
                '%d abbreviations x %s' % (len(markup), ctx), rule, exhaustive=True)
-    run_parallel(c, 'bounded.c11', 'check_roundtrip', _embed('markup', markup, ctxs, False), chunk=1000)
+    run_parallel(c, 'bounded.c11', 'check_roundtrip', _embed('markup', markup, ctxs, 'roundtrip'), chunk=1000)
     out.append(c.done())
 
     c = Clause('roundtrip-markup-random', 'B', 'seeded random abbreviations: 2..%d elements from the element pool, operators > + ^, '
                'nested groups with repeaters; tag look-alikes routed to their own clause' % maxel,
                '%d abbreviations (seed %d) x %s' % (len(rnd), seed, ctx), rule, exhaustive=False)
-    run_parallel(c, 'bounded.c11', 'check_roundtrip', _embed('markup', rnd, ctxs, False), chunk=1000)
+    run_parallel(c, 'bounded.c11', 'check_roundtrip', _embed('markup', rnd, ctxs, 'roundtrip'), chunk=1000)
     out.append(c.done())
 
     c = Clause('roundtrip-stylesheet', 'B', 'c11_gen.stylesheet_abbreviations(): property x value forms (numbers, units, colours, '
                'keywords, !, variables, one-argument functions) and + combinations',
                '%d abbreviations x %s' % (len(css), ctx), rule, exhaustive=True)
-    run_parallel(c, 'bounded.c11', 'check_roundtrip', _embed('stylesheet', css, ctxs, False), chunk=1000)
+    run_parallel(c, 'bounded.c11', 'check_roundtrip', _embed('stylesheet', css, ctxs, 'roundtrip'), chunk=1000)
     out.append(c.done())
 
     c = Clause('roundtrip-tag-lookalike', 'B',
-               'the (left context, abbreviation) pairs of the two markup clauses above for which c11_gen.tag_lookalike holds '
-               '(text in front of a child operator ends like an HTML tag with an unquoted last attribute)',
+               'the abbreviations of the two markup clauses above for which c11_gen.tag_lookalike(\'\', abbr) holds: the text in '
+               'front of one of their child operators ends like an HTML tag with an unquoted last attribute (`li[title=x]*3>a`)',
                'same pools and contexts as roundtrip-markup and roundtrip-markup-random', rule, exhaustive=True)
-    run_parallel(c, 'bounded.c11', 'check_roundtrip', _embed('markup', markup + rnd, ctxs, True), chunk=1000)
+    run_parallel(c, 'bounded.c11', 'check_roundtrip', _embed('markup', markup + rnd, ctxs, 'is_html-heuristic'), chunk=1000)
+    out.append(c.done())
+
+    c = Clause('roundtrip-left-tag-unquoted', 'B',
+               'the (left context, abbreviation) pairs of the two markup clauses above that look like a tag end only together '
+               'with the left context: the left tag ends with an unquoted attribute value (`<a href=x>`) and the abbreviation '
+               'has a child operator (`<a href=x>#id>a`)',
+               'same pools and contexts as roundtrip-markup and roundtrip-markup-random', rule, exhaustive=True)
+    run_parallel(c, 'bounded.c11', 'check_roundtrip', _embed('markup', markup + rnd, ctxs, 'is_html-unquoted-value'), chunk=1000)
     out.append(c.done())
 
     fn = c11_gen.stylesheet_function_abbreviations()
     c = Clause('roundtrip-stylesheet-function-args', 'B', 'stylesheet abbreviations whose value is a function call with several '
                'comma-separated arguments', '%d abbreviations x %s' % (len(fn), ctx), rule, exhaustive=True)
-    run_parallel(c, 'bounded.c11', 'check_roundtrip', _embed('stylesheet', fn, ctxs, False), chunk=1000)
+    run_parallel(c, 'bounded.c11', 'check_roundtrip', _embed('stylesheet', fn, ctxs, 'comma-in-function'), chunk=1000)
     out.append(c.done())
     return out
